@@ -179,6 +179,7 @@ fn version_of(name: &str) -> M2Version {
         "WotLK" => M2Version::WotLK,
         "Cataclysm" => M2Version::Cataclysm,
         "MoP" => M2Version::MoP,
+        "Legion" => M2Version::Legion,
         _ => tool_error("unknown version"),
     }
 }
@@ -507,7 +508,10 @@ fn x_particles(ps: &[M2ParticleEmitter]) -> String {
         format!("{:?}{:?}{:?}", p.emission_speed_animation, p.color_animation, p.z_source_animation))).collect::<Vec<_>>())
 }
 fn views_tok(es: &[EmbeddedSkinRaw]) -> Value {
-    same(&es.iter().map(|e| (e.model_view.get(40..44).map(|s| s.to_vec()), e.indices.clone(), e.triangles.clone(), e.properties.clone(), e.submeshes.clone(), e.batches.clone())).collect::<Vec<_>>())
+    same(&es.iter().map(|e| (e.model_view.get(40..44).map(|s| s.to_vec()), e.indices.clone(), e.triangles.clone(), e.properties.clone(), e.batches.clone())).collect::<Vec<_>>())
+}
+fn views_sub_tok(es: &[EmbeddedSkinRaw]) -> Value {
+    same(&es.iter().map(|e| e.submeshes.clone()).collect::<Vec<_>>())
 }
 
 fn model_tokens(m: &M2Model) -> Value {
@@ -541,6 +545,7 @@ fn model_tokens(m: &M2Model) -> Value {
     put("attachment_lookup_table", same(&r.attachment_lookup_table));
     put("camera_lookup_table", same(&r.camera_lookup_table));
     put("views", views_tok(&r.embedded_skins));
+    put("views_submeshes", views_sub_tok(&r.embedded_skins));
     put("particle_emitters", pair(ptok(&m.particle_emitters), x_particles(&m.particle_emitters)));
     put("particle_emitters+", same(&r.particle_animation_data));
     put("ribbon_emitters", pair(ptok(&m.ribbon_emitters), x_ribbons(&m.ribbon_emitters)));
@@ -764,6 +769,36 @@ fn run_skin(t: &mut Vec<Value>, c: &Value, case: &str, seed: u64) {
         let rb = take(rw).unwrap_or_default();
         t.push(json!({"ev":"Rewrite","case":case,"res":rres,"note":rnote,"len":rb.len(),"tok":tok(&rb)}));
     }
+    for to in ["Vanilla", "WotLK", "Cataclysm", "MoP"] {
+        let tv = version_of(to);
+        let cv = guarded(|| s.convert(tv));
+        t.push(conv_event(case, gs(c, "ver"), to, "SkinFile::convert", cv, skin_tokens,
+            |x: &SkinFile| { let mut cur = Cursor::new(Vec::new()); x.write(&mut cur).map(|_| cur.into_inner()) },
+            |b: &[u8]| SkinFile::parse(&mut Cursor::new(b))));
+    }
+}
+
+fn conv_event<T>(case: &str, from: &str, to: &str, api: &str, cv: Outcome<std::result::Result<T, wow_m2::M2Error>>,
+                 toks: impl Fn(&T) -> Value, wr: impl Fn(&T) -> std::result::Result<Vec<u8>, wow_m2::M2Error>,
+                 pr: impl Fn(&[u8]) -> std::result::Result<T, wow_m2::M2Error>) -> Value {
+    let (cres, cnote) = (res_of(&cv), note_of(&cv));
+    let mut e = json!({"ev":"Convert","case":case,"from":from,"to":to,"api":api,"res":cres,"note":cnote,"secs":{},
+                       "wres":"skipped","wlen":0,"wtok":"","pres":"skipped","psecs":{}});
+    if let Some(cm) = take(cv) {
+        e["secs"] = toks(&cm);
+        let cw = guarded(|| wr(&cm));
+        e["wres"] = json!(res_of(&cw));
+        if let Some(cb) = take(cw) {
+            e["wlen"] = json!(cb.len());
+            e["wtok"] = json!(tok(&cb));
+            let cp = guarded(|| pr(&cb));
+            e["pres"] = json!(res_of(&cp));
+            if let Some(cpm) = take(cp) {
+                e["psecs"] = toks(&cpm);
+            }
+        }
+    }
+    e
 }
 
 // ---------------------------------------------------------------------------------------------
@@ -843,6 +878,14 @@ fn run_anim(t: &mut Vec<Value>, c: &Value, case: &str, seed: u64) {
         let rb = take(rw).unwrap_or_default();
         t.push(json!({"ev":"Rewrite","case":case,"res":rres,"note":rnote,"len":rb.len(),"tok":tok(&rb)}));
     }
+    let from = if gs(c, "format") == "modern" { "Legion" } else { "MoP" };
+    for to in ["MoP", "Legion"] {
+        let tv = version_of(to);
+        let cv = guarded(|| Ok::<AnimFile, wow_m2::M2Error>(a.convert(tv)));
+        t.push(conv_event(case, from, to, "AnimFile::convert", cv, anim_tokens,
+            |x: &AnimFile| { let mut cur = Cursor::new(Vec::new()); x.write(&mut cur).map(|_| cur.into_inner()) },
+            |b: &[u8]| AnimFile::parse(&mut Cursor::new(b))));
+    }
 }
 
 fn main() {
@@ -868,7 +911,7 @@ fn main() {
         // class attributes of the case (for signatures): which sections are populated
         let pop: Vec<String> = c.get("card").and_then(|x| x.as_object()).map(|o| o.iter().filter(|(_, n)| n.as_i64().unwrap_or(0) > 0).map(|(k, _)| k.clone()).collect()).unwrap_or_default();
         let mut evs = vec![json!({"ev":"Reset","case":case,"kind":kind,"fmt":fmt,"slice":gs(c,"slice"),
-            "ver":c.get("ver").cloned().unwrap_or(json!("-")),"vn":c.get("vn").cloned().unwrap_or(json!(0)),
+            "ver":c.get("ver").cloned().unwrap_or(json!(if fmt == "anim_modern" { "Legion" } else { "MoP" })),"vn":c.get("vn").cloned().unwrap_or(json!(0)),
             "kf":c.get("kf").cloned().unwrap_or(json!(false)),"floats":c.get("floats").cloned().unwrap_or(json!("normal")),
             "pop":pop,"shape":c.get("card").cloned().unwrap_or(json!({"nsec":c.get("nsec"),"nbones":c.get("nbones"),"data":c.get("data")}))})];
         match kind {
